@@ -68,5 +68,6 @@ int   mcx_alloc_failed(void);            /* did the armed failure trigger */
 void  mcx_alloc_fail_from(long n);       /* fail every allocation from the n-th on */
 int   mcx_fd_count(void);                /* number of open fds */
 uint64_t mcx_fd_signature(void);         /* hash of open fd numbers */
+int   mcx_private_netns(void);           /* own loopback/port space for this process; -1 = not available (harmless) */
 
 #endif
